@@ -281,6 +281,9 @@ pub struct LayoutOpts {
     /// a carriage return right before the line feed of lines after the header (blank space
     /// between the last token of a line and the end of the line)
     pub cr_at_eol: bool,
+    /// LF and CRLF line ends mixed line by line (all lines if `crlf`, lines after the header if
+    /// `cr_at_eol`)
+    pub mixed_eol: bool,
 }
 
 impl LayoutOpts {
@@ -295,6 +298,7 @@ impl LayoutOpts {
         header_spacing: false,
         final_newline: None,
         cr_at_eol: false,
+        mixed_eol: false,
     };
     pub const ALL: LayoutOpts = LayoutOpts {
         lead_blank: true,
@@ -307,6 +311,7 @@ impl LayoutOpts {
         header_spacing: true,
         final_newline: None,
         cr_at_eol: false,
+        mixed_eol: true,
     };
     /// everything C20's statement lists (all after the header line)
     pub const AFTER_HEADER: LayoutOpts = LayoutOpts {
@@ -320,6 +325,7 @@ impl LayoutOpts {
         header_spacing: false,
         final_newline: None,
         cr_at_eol: true,
+        mixed_eol: true,
     };
 }
 
@@ -333,7 +339,10 @@ pub struct LayoutStats {
     pub removed_blanks: usize,
     pub wide_blanks: usize,
     pub reradixed: usize,
+    /// places where the blank between a number and a following X / Z / C entry was removed
+    pub num_xzc_sites: usize,
     pub crlf: bool,
+    pub mixed_eol: bool,
     pub final_newline: bool,
 }
 
@@ -437,6 +446,20 @@ pub fn render(lines: &[Line], ch: &mut Ch, opts: LayoutOpts) -> Rendered {
         st.tabs_or_cr += 1;
         st.crlf = true;
     }
+    // or the line end chosen line by line
+    let mixed = opts.mixed_eol && (opts.crlf || opts.cr_at_eol) && !crlf && !cr_body && ch.chance(1, 4);
+    let mixed_header = mixed && opts.crlf;
+    let mut mixed_used = false;
+    let mut pick = |ch: &mut Ch, fixed: &'static str, on: bool| -> &'static str {
+        if on && ch.chance(1, 2) {
+            mixed_used = true;
+            "\r\n"
+        } else if on {
+            "\n"
+        } else {
+            fixed
+        }
+    };
 
     if opts.lead_blank {
         let n = ch.weighted(&[6, 2, 1, 1, 1]);
@@ -444,7 +467,7 @@ pub fn render(lines: &[Line], ch: &mut Ch, opts: LayoutOpts) -> Rendered {
             if ch.chance(1, 3) {
                 text.push_str("  \t");
             }
-            text.push_str(eol);
+            text.push_str(pick(ch, eol, mixed_header));
             line_no += 1;
             inserted += 1;
         }
@@ -466,7 +489,7 @@ pub fn render(lines: &[Line], ch: &mut Ch, opts: LayoutOpts) -> Rendered {
                 } else if ch.chance(1, 3) {
                     text.push_str(" \t ");
                 }
-                text.push_str(body_eol);
+                text.push_str(pick(ch, body_eol, mixed));
                 line_no += 1;
                 inserted += 1;
                 st.inserted_lines += 1;
@@ -477,25 +500,38 @@ pub fn render(lines: &[Line], ch: &mut Ch, opts: LayoutOpts) -> Rendered {
         if vary && ch.chance(1, 5) {
             text.push_str(if ch.chance(1, 2) { "  " } else { "\t" });
         }
+        let mut prev_rendered = String::new();
         for (ti, t) in line.toks.iter().enumerate() {
             if ti > 0 {
                 let prev = &line.toks[ti - 1];
                 let wordlike = |t: &Tok| !matches!(t.class, TokClass::Sym);
-                // a blank is always kept between two word-like tokens
-                let must = wordlike(prev) && wordlike(t);
+                // a number directly followed by an X / Z / C entry lexes as the same two tokens
+                // (`0X`, `12z`, `0b1C`), except that C is a digit after a hex literal
+                let num_then_xzc = matches!(prev.class, TokClass::Num(..))
+                    && t.class == TokClass::Word
+                    && match t.text.as_str() {
+                        "X" | "x" | "Z" | "z" => true,
+                        "C" | "c" => !(prev_rendered.starts_with("0x") || prev_rendered.starts_with("0X")),
+                        _ => false,
+                    };
+                // otherwise a blank is always kept between two word-like tokens
+                let must = wordlike(prev) && wordlike(t) && !num_then_xzc;
+
                 if vary {
                     let b = blank(ch, &mut st, !must && !is_header);
+                    if num_then_xzc && b.is_empty() {
+                        st.num_xzc_sites += 1;
+                    }
                     text.push_str(&b);
                 } else {
                     text.push(' ');
                 }
             }
-            match &t.class {
-                TokClass::Num(v, r) if opts.reradix && !is_header => {
-                    text.push_str(&reradix(*v, *r, ch, &mut st))
-                }
-                _ => text.push_str(&t.text),
-            }
+            prev_rendered = match &t.class {
+                TokClass::Num(v, r) if opts.reradix && !is_header => reradix(*v, *r, ch, &mut st),
+                _ => t.text.clone(),
+            };
+            text.push_str(&prev_rendered);
         }
         if let Some(r) = line.row {
             row_line[r] = line_no;
@@ -521,7 +557,7 @@ pub fn render(lines: &[Line], ch: &mut Ch, opts: LayoutOpts) -> Rendered {
         if drop_nl {
             st.final_newline = false;
         } else {
-            text.push_str(if is_header { eol } else { body_eol });
+            text.push_str(if is_header { pick(ch, eol, mixed_header) } else { pick(ch, body_eol, mixed) });
             line_no += 1;
         }
     }
@@ -533,9 +569,13 @@ pub fn render(lines: &[Line], ch: &mut Ch, opts: LayoutOpts) -> Rendered {
                 text.push_str(COMMENTS[ch.upto(COMMENTS.len())]);
                 st.comment_lines += 1;
             }
-            text.push_str(body_eol);
+            text.push_str(pick(ch, body_eol, mixed));
             st.inserted_lines += 1;
         }
+    }
+    if mixed_used {
+        st.crlf = true;
+        st.mixed_eol = true;
     }
     Rendered { text, row_line, inserted_above, stats: st }
 }
